@@ -6,7 +6,7 @@
 use crate::rng::{self, Rng};
 use crate::sched::{self, SimCfg, Strategy};
 use crate::sendable::Sendable;
-use crate::tracked::{self, T24};
+use crate::tracked::{self, T24, Zst};
 use crate::{RunResult, alloc, viol};
 use roto::{FileTree, NoCtx, Package, RotoString, Runtime, TypedFunc, Val, library};
 use serde::{Deserialize, Serialize};
@@ -64,6 +64,8 @@ thread_local! {
     static HOSTLOG: RefCell<Vec<(&'static str, u64)>> = const { RefCell::new(Vec::new()) };
 }
 static MK_CALLS: Mutex<BTreeMap<u64, u64>> = Mutex::new(BTreeMap::new());
+/// successful compilations per script version
+static COMPILES: Mutex<BTreeMap<u64, u64>> = Mutex::new(BTreeMap::new());
 /// values returned by calls, kept until after every module is gone: (value, expected text)
 static KEPT_STR: Mutex<Vec<(Sendable<RotoString>, String)>> = Mutex::new(Vec::new());
 static KEPT_OBJ: Mutex<Vec<(Sendable<Val<T24>>, u64)>> = Mutex::new(Vec::new());
@@ -126,6 +128,10 @@ fn mk_runtime_base(rid: u64) -> Runtime<NoCtx> {
     let kl: roto::List<u64> = roto::List::from(vec![rid, rid + 1]);
     Runtime::from_lib(library! {
         #[clone] type Tr = Val<T24>;
+        #[clone] type Zt = Val<Zst>;
+        fn mkz() -> Val<Zst> {
+            Val(Zst::new())
+        }
         const K: Val<T24> = k;
         const KO: Option<Val<T24>> = ko;
         const KS: Option<RotoString> = ks;
@@ -168,8 +174,11 @@ fn mk_runtime_base(rid: u64) -> Runtime<NoCtx> {
     .expect("runtime")
 }
 
-pub fn c_payload(m: u64) -> u64 {
-    10_000 + 10 * m
+/// Payload of the script constant `C` of version `k`. The script text depends on the version
+/// (and on the constants its runtime carries) only, never on which compilation it is: compiling
+/// the same text again - a reload of an unchanged script - is a history like any other.
+pub fn c_payload(k: u64) -> u64 {
+    10_000 + 10 * k
 }
 
 pub fn many_constants(k: u64) -> u64 {
@@ -178,7 +187,7 @@ pub fn many_constants(k: u64) -> u64 {
 
 pub fn script(m: u64, k: u64, broken: bool, extras: &[u64]) -> String {
     // constants added to the runtime after its construction (payload 5000+aid, name X<aid>)
-    let ex_body = if extras.is_empty() { "0".to_string() } else { extras.iter().map(|p| format!("val(X{})", p - 5000)).collect::<Vec<_>>().join(" + ") };
+    let ex_body = if extras.is_empty() { "0".to_string() } else { extras.iter().map(|p| format!("val(X{})", (p - 5000) % 2)).collect::<Vec<_>>().join(" + ") };
     // version 6 carries 72 more script constants (their storage is more than 1 KiB)
     let nmany = many_constants(k);
     let many_decl: String = (0..nmany).map(|i| if i % 10 == 9 { format!("const N{i}_{k}: String = \"n{i}\";\n") } else { format!("const N{i}_{k}: u64 = {};\n", i + k) }).collect();
@@ -189,7 +198,8 @@ pub fn script(m: u64, k: u64, broken: bool, extras: &[u64]) -> String {
 }
 
 fn script_base(m: u64, k: u64, broken: bool) -> String {
-    let c0 = c_payload(m);
+    let c0 = c_payload(k);
+    let _ = m;
     let (c1, c2, c3) = (c0 + 1, c0 + 2, c0 + 3);
     let b = if broken { "let q: bool = 3;" } else { "" };
     // The same seven identifiers play different roles in different versions, and dependent
@@ -240,9 +250,15 @@ fn f(x: u64) -> u64 {{
     acc = acc + {lt}.len() + opt_{k}() + rc.n;
     acc = acc + val(rc.t) + ko_{k}() + KL.len();
     acc = acc + ex_{k}() + many_{k}();
-    acc + cap2() + cap3()
+    acc + cap2() + cap3() + usez_{k}() - 1
 }}
-fn lit() -> String {{ "literal-{k}-of-m{m}" }}
+const ZC: Zt = mkz();
+fn usez_{k}() -> u64 {{
+    let z = ZC;
+    let y = z;
+    1
+}}
+fn lit() -> String {{ "literal-of-version-{k}" }}
 fn s(a: String) -> String {{ let rc = {rc}; a + {s} + rc.s + ks_{k}() }}
 test keeps_{k} {{
     if val({c}) == {c0} && cap() > 0 {{ accept }} else {{ reject }}
@@ -341,26 +357,30 @@ fn check_not_before(site: &str) {
     let live = tracked::live_by_payload();
     let g = MODEL.lock().unwrap();
     let Some(model) = g.as_ref() else { return };
+    let mut alive_by_version: BTreeMap<u64, usize> = BTreeMap::new();
     for (&m, x) in &model.mods {
         if !(x.pkg || x.handles > 0) {
             continue;
         }
-        let c = live.get(&c_payload(m)).copied().unwrap_or(0);
-        let c1 = live.get(&(c_payload(m) + 1)).copied().unwrap_or(0);
-        let c2 = live.get(&(c_payload(m) + 2)).copied().unwrap_or(0);
-        let c3 = live.get(&(c_payload(m) + 3)).copied().unwrap_or(0);
-        if c < 2 || c1 < 1 || c2 < 1 || c3 < 1 {
-            viol::record(
-                "released-too-early",
-                format!("at {site}: module m{m} (version {}) still has a holder (package alive: {}, live handles: {}) but its script constants are gone: live C/D instances {c} (need 2), LT element {c1}, optional constant O {c2}, record constant RC.t {c3} (need 1 each)", x.k, x.pkg, x.handles),
-            );
-            return;
-        }
+        *alive_by_version.entry(x.k).or_insert(0) += 1;
         let (pl, pf) = alloc::module_pages(m as u32);
         if pl == 0 || pf > 0 {
             viol::record(
                 "released-too-early",
                 format!("at {site}: module m{m} still has a holder (package alive: {}, live handles: {}) but its machine-code pages are not all alive: {pl} live, {pf} freed", x.pkg, x.handles),
+            );
+            return;
+        }
+    }
+    for (&k, &n) in &alive_by_version {
+        let c = live.get(&c_payload(k)).copied().unwrap_or(0);
+        let c1 = live.get(&(c_payload(k) + 1)).copied().unwrap_or(0);
+        let c2 = live.get(&(c_payload(k) + 2)).copied().unwrap_or(0);
+        let c3 = live.get(&(c_payload(k) + 3)).copied().unwrap_or(0);
+        if c < 2 * n || c1 < n || c2 < n || c3 < n {
+            viol::record(
+                "released-too-early",
+                format!("at {site}: {n} module(s) compiled from version {k} still have a holder, but their script constants are not all alive: live C/D instances {c} (need {}), LT element {c1}, optional constant O {c2}, record constant RC.t {c3} (need {n} each)", 2 * n),
             );
             return;
         }
@@ -375,7 +395,7 @@ fn check_not_before(site: &str) {
         if live.get(&p).copied().unwrap_or(0) < 1 {
             viol::record(
                 "released-too-early",
-                format!("at {site}: the registered constant X{} (added to a runtime with Runtime::add) was released although a runtime carrying it or a module compiled with it is still alive", p - 5000),
+                format!("at {site}: the registered constant X{} with payload {p} (added to a runtime with Runtime::add) was released although a runtime carrying it or a module compiled with it is still alive", (p - 5000) % 2),
             );
             return;
         }
@@ -576,6 +596,10 @@ fn exec_inner(op: &LifeOp) -> bool {
             let rid = e.rid;
             match res {
                 Ok(pkg) => {
+                    {
+                        let _mg = alloc::ModeGuard::new(alloc::MODE_PLAIN);
+                        *COMPILES.lock().unwrap().entry(*k).or_insert(0) += 1;
+                    }
                     let failed_before = FAILED_RELOADS.load(SeqCst) > 0;
                     with_model(|md| {
                         md.mods.insert(*m, Mod { rid, k: *k, extras: extras.clone(), pkg: true, handles: 0, compiled_by: me, after_failed_reload: failed_before });
@@ -610,8 +634,9 @@ fn exec_inner(op: &LifeOp) -> bool {
                 Err(_) => {
                     let (pl, _) = alloc::module_pages(*m as u32);
                     let live = tracked::live_by_payload();
-                    if pl != 0 || (0..4).any(|j| live.contains_key(&(c_payload(*m) + j))) {
-                        viol::record("failed-reload-left-state", format!("failed compilation of m{m} left {pl} live page blocks / tracked constants behind"));
+                    let _ = live;
+                    if pl != 0 {
+                        viol::record("failed-reload-left-state", format!("failed compilation of m{m} left {pl} live page blocks behind"));
                     }
                 }
             }
@@ -691,7 +716,7 @@ fn exec_inner(op: &LifeOp) -> bool {
             if FAILED_RELOADS.load(SeqCst) > 0 && !afr {
                 P_CALL_AFTER_FAILED_RELOAD.fetch_add(1, SeqCst);
             }
-            let c = c_payload(e.m);
+            let c = c_payload(k);
             let _ = take_hostlog();
             IN_CALL.fetch_add(1, SeqCst);
             match &e.f {
@@ -735,7 +760,7 @@ fn exec_inner(op: &LifeOp) -> bool {
                 Hf::L(f) => {
                     let got = f.call();
                     let log = take_hostlog();
-                    let want = format!("literal-{k}-of-m{}", e.m);
+                    let want = format!("literal-of-version-{k}");
                     {
                         let s: &str = got.as_ref();
                         if s != want || !log.is_empty() {
@@ -789,13 +814,15 @@ fn exec_inner(op: &LifeOp) -> bool {
         }
         LifeOp::AddConstant { r, aid } => {
             let Some(mut e) = with_pools(|p| p.rts[*r].take()) else { return false };
-            if e.extras.len() >= 3 || e.extras.contains(&(5000 + aid)) {
+            // names come from a pool of two (X0, X1): two clones of one runtime can carry constants
+            // of the same name with different values, and their scripts then have the same text
+            let payload = 5000 + aid;
+            let name = format!("X{}", aid % 2);
+            if e.extras.iter().any(|p| (p - 5000) % 2 == aid % 2) {
                 back_rt(*r, e);
                 return false;
             }
-            let payload = 5000 + aid;
             let v = Val(T24::new(payload));
-            let name = format!("X{aid}");
             let res = roto::Constant::new(name.as_str(), "added after construction", v, roto::location!()).and_then(|c| e.rt.0.add(c));
             match res {
                 Ok(()) => {
@@ -1079,6 +1106,7 @@ pub fn execute(d: &LifeDesc, keep_trace: bool) -> RunResult {
     });
     *MODEL.lock().unwrap() = Some(Model::default());
     MK_CALLS.lock().unwrap().clear();
+    COMPILES.lock().unwrap().clear();
     KEPT_STR.lock().unwrap().clear();
     KEPT_OBJ.lock().unwrap().clear();
     for a in [&P_COMPILE_OVERLAP, &P_DROP_DURING_CALL, &P_LAST_HOLDER_FOREIGN, &P_CALL_AFTER_PKG_AND_RT_GONE, &P_CALL_AFTER_FAILED_RELOAD, &P_SKIPPED, &P_EXECUTED, &P_CHECKS, &FAILED_RELOADS] {
@@ -1213,6 +1241,9 @@ pub fn execute(d: &LifeDesc, keep_trace: bool) -> RunResult {
         if !live.is_empty() {
             viol::record("leak", format!("after every runtime, package and handle was dropped these tracked values (payload -> count) are still alive: {live:?}"));
         }
+        if tracked::zst_live() != 0 {
+            viol::record("leak", format!("zero-sized script constants: live count {} after every owner was dropped", tracked::zst_live()));
+        }
         let mods: Vec<u64> = with_model(|m| m.mods.keys().copied().collect());
         for m in mods {
             let (pl, pf) = alloc::module_pages(m as u32);
@@ -1223,8 +1254,15 @@ pub fn execute(d: &LifeDesc, keep_trace: bool) -> RunResult {
         }
         // side invariant (C14): every constant initialiser ran exactly once per compilation
         let mk = MK_CALLS.lock().unwrap().clone();
-        if let Some((p, n)) = mk.iter().find(|(_, n)| **n != 1) {
-            viol::record("constant-initialiser-multiplicity", format!("mk({p}) was called {n} times during compilation"));
+        let compiles = COMPILES.lock().unwrap().clone();
+        for (p, n) in &mk {
+            // mk(10000 + 10k + j) is the initialiser of a constant of version k
+            let k = (p - 10_000) / 10;
+            let want = compiles.get(&k).copied().unwrap_or(0);
+            if *p >= 10_000 && *n != want {
+                viol::record("constant-initialiser-multiplicity", format!("mk({p}) was called {n} times for {want} successful compilation(s) of version {k}"));
+                break;
+            }
         }
     }
     let _ = alloc::end_run_check();
